@@ -376,11 +376,60 @@ Definition vm_compat (t : vm_vtype) (wtyp : N) : bool :=
   | _ => false
   end.
 
+(* what one field does to the machine: skip to b', push a new state, or fail *)
+Inductive vm_action :=
+| AInvalid
+| ACont (b' : list byte)
+| APush (nt : vm_vtype) (e : N) (tail content : list byte).
+
+(* the switch on the wire type (and, for LEN and SGROUP, on the validation type) *)
+Definition vm_field_action (vt : vm_vtype) (num wtyp : N) (b1 : list byte) : vm_action :=
+  match wtyp with
+  | 0 => match vm_skip_varint b1 with Some b2 => ACont b2 | None => AInvalid end
+  | 2 =>
+    match vm_fast_varint b1 with
+    | None => AInvalid
+    | Some (size, b2) =>
+      if N.of_nat (length b2) <? size then AInvalid
+      else
+        let v := firstn (N.to_nat size) b2 in
+        let b3 := skipn (N.to_nat size) b2 in
+        match vt with
+        | VtMessage _ | VtMap _ _ _ => APush vt 0 b3 v
+        | VtRepVarint => if vr_varints (x00 :: v) v then ACont b3 else AInvalid
+        | VtRepFixed32 => if N.of_nat (length v) mod 4 =? 0 then ACont b3 else AInvalid
+        | VtRepFixed64 => if N.of_nat (length v) mod 8 =? 0 then ACont b3 else AInvalid
+        | VtUTF8 => if msg_utf8_valid v then ACont b3 else AInvalid
+        | _ => ACont b3
+        end
+    end
+  | 5 => match take 4 b1 with Some (_, b2) => ACont b2 | None => AInvalid end
+  | 1 => match take 8 b1 with Some (_, b2) => ACont b2 | None => AInvalid end
+  | 3 =>
+    match vt with
+    | VtGroup _ => APush vt num [] b1
+    | _ => match vr_skip num 3 b1 with Some b2 => ACont b2 | None => AInvalid end
+    end
+  | _ => AInvalid
+  end.
+
 Section VmRun.
   Variable S : schema.
 
   Definition vm_md (t : vm_vtype) : mdesc :=
     match t with VtMessage tid | VtGroup tid => nth tid S [] | _ => [] end.
+
+  (* validationInfo of field [num] in state [st]: type, required bit *)
+  Definition vm_info (st : vm_state) (num : N) : vm_vtype * bool :=
+    match vs_typ st with
+    | VtMap kt vt _ =>
+      if num =? 1 then (kt, false) else if num =? 2 then (vt, true) else (VtOther, false)
+    | t =>
+      match msg_find_field (vm_md t) num with
+      | Some fd => (vm_field_vtype fd, vr_is_req fd)
+      | None => (VtOther, false)
+      end
+    end.
 
   (* PopState: the required-field check of the state that is closed *)
   Definition vm_pop_ok (st : vm_state) : bool :=
@@ -389,6 +438,11 @@ Section VmRun.
     | VtMap _ _ (Some tid) => negb (vr_reqof S tid) || vr_seen (vs_mask st) 2
     | _ => true
     end.
+
+  Definition vm_mark (st : vm_state) (num wtyp : N) : vm_state :=
+    let '(vt, req) := vm_info st num in
+    if req && vm_compat vt wtyp
+    then mkVS (vs_typ st) (vs_end st) (vs_tail st) (num :: vs_mask st) else st.
 
   (* fuel: every iteration consumes a byte or pops a state *)
   Fixpoint vm_run (fuel : nat) (states : list vm_state) (b : list byte) (depth : nat) (init : bool) : vm_out :=
@@ -410,52 +464,15 @@ Section VmRun.
             if (num <? 1) || (msg_max_num <? num) then VmInvalid
             else if wtyp =? 4 then (if vs_end st =? num then pop b1 else VmInvalid)
             else
-              (* validationInfo of this field in this state: type, required bit *)
-              let '(vt, req) :=
-                match vs_typ st with
-                | VtMap kt vt _ =>
-                  if num =? 1 then (kt, false) else if num =? 2 then (vt, true) else (VtOther, false)
-                | t =>
-                  match msg_find_field (vm_md t) num with
-                  | Some fd => (vm_field_vtype fd, vr_is_req fd)
-                  | None => (VtOther, false)
-                  end
-                end in
-              let st' := if req && vm_compat vt wtyp
-                         then mkVS (vs_typ st) (vs_end st) (vs_tail st) (num :: vs_mask st) else st in
-              let continue (b' : list byte) := vm_run fuel' (st' :: below) b' depth init in
-              let push (nt : vm_vtype) (e : N) (tail content : list byte) :=
+              let st' := vm_mark st num wtyp in
+              match vm_field_action (fst (vm_info st num)) num wtyp b1 with
+              | AInvalid => VmInvalid
+              | ACont b' => vm_run fuel' (st' :: below) b' depth init
+              | APush nt e tail content =>
                 match depth with
                 | O => VmInvalid
                 | Datatypes.S d' => vm_run fuel' (mkVS nt e tail [] :: st' :: below) content d' init
-                end in
-              match wtyp with
-              | 0 => match vm_skip_varint b1 with Some b2 => continue b2 | None => VmInvalid end
-              | 2 =>
-                match vm_fast_varint b1 with
-                | None => VmInvalid
-                | Some (size, b2) =>
-                  if N.of_nat (length b2) <? size then VmInvalid
-                  else
-                    let v := firstn (N.to_nat size) b2 in
-                    let b3 := skipn (N.to_nat size) b2 in
-                    match vt with
-                    | VtMessage _ | VtMap _ _ _ => push vt 0 b3 v
-                    | VtRepVarint => if vr_varints (x00 :: v) v then continue b3 else VmInvalid
-                    | VtRepFixed32 => if N.of_nat (length v) mod 4 =? 0 then continue b3 else VmInvalid
-                    | VtRepFixed64 => if N.of_nat (length v) mod 8 =? 0 then continue b3 else VmInvalid
-                    | VtUTF8 => if msg_utf8_valid v then continue b3 else VmInvalid
-                    | _ => continue b3
-                    end
                 end
-              | 5 => match take 4 b1 with Some (_, b2) => continue b2 | None => VmInvalid end
-              | 1 => match take 8 b1 with Some (_, b2) => continue b2 | None => VmInvalid end
-              | 3 =>
-                match vt with
-                | VtGroup _ => push vt num [] b1
-                | _ => match vr_skip num 3 b1 with Some b2 => continue b2 | None => VmInvalid end
-                end
-              | _ => VmInvalid
               end
           end
         end
